@@ -28,9 +28,10 @@ from .. import eqsys_fixture as fx
 from .. import tlc
 
 LEVEL = "model_checking"
-CLAUSES = ["OracleSane", "Evaluates", "ValueAgrees", "JacobianAgrees", "ValueOnlyAgrees", "PrevTimeNoDerivative",
-           "TreeConforms", "Band"]
-DESIGN_LAWS = ["TypeOK", "BuildDefined", "ParseAgreesDirect", "ValueModeConsistent", "PrevNoDerivative", "NoNumpyCapture"]
+MATCHERS = {}     # no known finding: the check is silent on the current tree
+# J_OperatorTree.Verdict judges the property clauses Evaluates, ValueAgrees, JacobianAgrees, ValueOnlyAgrees,
+# PrevTimeNoDerivative (-> ctx.violation), TreeConforms (-> ctx.drift), OracleSane (-> machinery) and tells the band;
+# OperatorTreeEnum.DesignLaws = TypeOK, BuildDefined, ParseAgreesDirect, ValueModeConsistent, PrevNoDerivative, NoNumpyCapture
 TOL_PASS, TOL_FAIL = 1000, 1000000          # units of 1e-12: 1e-9 passes, > 1e-6 fails (DESIGN 8)
 QCAP = 2 ** 30 - 1
 LATTICE = [Fraction(1, 2), Fraction(1), Fraction(3, 2), Fraction(2), Fraction(5, 2), Fraction(3)]
@@ -120,7 +121,7 @@ class Fixture:
         add("M49", "SparseArray", pp.ad.SparseArray(sps.csr_matrix(m49)), sps.csr_matrix(m49), n=nh, m=n9)
         add("M94", "SparseArray", pp.ad.SparseArray(sps.csc_matrix(m94)), sps.csc_matrix(m94), n=n9, m=nh)
         S = pp.matrix_operations.ArraySlicer
-        dom = np.arange(n9)[::2][:nh]
+        dom = np.arange(n9)[::2][:nh] if (n9 + 1) // 2 >= nh else np.arange(nh)
         p49 = dict(domain_indices=dom, range_indices=np.arange(nh)[::-1].copy(), domain_size=n9, range_size=nh)
         p94a = dict(domain_indices=np.arange(nh), range_indices=np.arange(nh), domain_size=nh, range_size=n9)
         p94b = dict(domain_indices=np.arange(nh), range_indices=np.arange(n9 - nh, n9), domain_size=nh, range_size=n9)
@@ -457,8 +458,18 @@ def shape_key(e):
     return f"{e[1]}[{shape_key(e[2])}]"
 
 
+RAW_LEAVES = ("rf", "ri", "rnf", "r4", "r9", "ri4", "rm44", "rm49", "rma44")
+
+
 def raw_left(e):
-    return e[0] == "bin" and e[2][0] == "leaf" and e[2][1] in ("rf", "ri", "rnf", "r4", "r9", "ri4", "rm44", "rm49", "rma44")
+    """a plain number / numpy array / scipy matrix is the left operand somewhere in e"""
+    if e[0] == "leaf":
+        return False
+    if e[0] == "bin":
+        return (e[2][0] == "leaf" and e[2][1] in RAW_LEAVES) or raw_left(e[2]) or raw_left(e[3])
+    if e[0] == "fn":
+        return any(raw_left(a) for a in e[2])
+    return raw_left(e[2])
 
 
 def has_prev(e):
@@ -473,8 +484,8 @@ def has_prev(e):
 
 def judge(ctx, fix, outs, prefix=""):
     jc = dict(spec_consts(fix), NDOF=fix.ndof, TolPass=TOL_PASS, TolFail=TOL_FAIL)
-    for lo in range(0, len(outs), 4000):
-        batch = outs[lo:lo + 4000]
+    for lo in range(0, len(outs), 5000):
+        batch = outs[lo:lo + 5000]
         cases = [{k: o[k] for k in ("expr", "berr", "built", "d", "v", "r", "exact", "q", "prev")} for o in batch]
         for v in ctx.judge("J_OperatorTree", cases, ["Verdict"], consts=jc, workers=8):
             o = batch[v["case"] - 1]
@@ -504,11 +515,12 @@ def run_cases(ctx, fix, recs):
 
 
 def run(ctx):
-    ctx.rule = ("TLC grows every well-typed expression (typing rules of OperatorTree.tla) over 27 leaves (atomic / md / "
+    ctx.rule = ("TLC grows every well-typed expression (typing rules of OperatorTree.tla) over a table of 27 leaves (atomic / md / "
                 "previous-time (1-2 steps) / previous-iterate variables, Scalar, DenseArray, SparseArray, Projection, "
                 "ProjectionList, TimeDependentDenseArray, raw float / int / numpy scalar / ndarray / scipy matrix) x "
                 "{+,-,*,/,**,@} x operand order x pp.ad.Function(exp, abs, l2_norm, maximum) x previous_timestep / "
-                "previous_iteration of composites: depth <= 1 complete, depth 2 over the core leaves; a case is one "
+                "previous_iteration of composites: depth <= 1 complete, depth 2 over 11 core leaves (quick: a hashed subset; "
+                "thorough: all with a leaf operand + sampled composite op composite + sampled depth 3); a case is one "
                 "expression built with the real overloads and evaluated with and without derivatives; distinct = "
                 "expression shapes (operations and leaf classes)")
     ctx.assumptions = [
@@ -524,16 +536,16 @@ def run(ctx):
     ]
     fix = Fixture(ctx.seed)
     if ctx.quick:
-        # depth <= 1 over all leaves: exhaustive; depth 2: random walks over the core leaves
-        # (one TLC run: composites of depth 1 are expanded if their structural hash = seed mod 29)
-        recs = enumerate_exprs(ctx, fix, 2, False, sample=(29, ctx.seed % 29), pair_all=False)
+        # depth <= 1 (every leaf with every core leaf, both orders): exhaustive; depth 2: the composites of depth 1 over
+        # the core leaves whose structural hash = seed mod 59 are extended in every way, the others only shifted (one TLC run)
+        recs = enumerate_exprs(ctx, fix, 2, False, sample=(59, ctx.seed % 59), pair_all=False)
         chosen = recs
         ctx.extra["depth2_sampled"] = sum(1 for r in recs if depth(r["expr"]) == 2)
     else:
         # depth <= 2 (one operand of a composite is a core leaf): exhaustive; composite op composite and depth 3: sampled
         recs = enumerate_exprs(ctx, fix, 2, False, timeout=3000)
-        d2 = enumerate_exprs(ctx, fix, 2, True, emit_from=2, simulate="num=150", tag="enum2", timeout=3000)
-        d3 = enumerate_exprs(ctx, fix, 3, False, emit_from=3, simulate="num=60", tag="enum3", timeout=3000)
+        d2 = enumerate_exprs(ctx, fix, 2, True, emit_from=2, simulate="num=2", tag="enum2", timeout=3000)
+        d3 = enumerate_exprs(ctx, fix, 3, False, emit_from=3, simulate="num=30", tag="enum3", timeout=3000)
         seen = {repr(r["expr"]) for r in recs}
         d2 = [r for r in d2 if repr(r["expr"]) not in seen]
         chosen = recs + d2 + d3
@@ -554,7 +566,7 @@ def run(ctx):
             ctx.sample(dict(expr=o["expr"], built=o["built"], value=o["d"]["val"], jac_nonzeros=len(o["d"]["jac"])))
             shown += 1
     for o in outs:
-        if o["prev"] and depth(o["expr"]) >= 1:
+        if o["prev"] and o["exact"] and o["prev"][0]["expr"] != o["expr"] and o["d"]["jac"]:
             ctx.sample(dict(expr=o["expr"], value=o["d"]["val"], prev=[dict(expr=p["expr"], val=p["val"], jnnz=p["jnnz"]) for p in o["prev"]]))
             break
 
